@@ -66,10 +66,9 @@ func c17Markups(all bool) []pagerMarkup {
 					if !all && !(si == ci%3 && wi == (ci/3)%4 && ni == (ci+1)%3) {
 						continue
 					}
+					// one teaser variant per markup, rotating (the full product would triple the grid)
 					teasers := []string{"", "plain", "banned"}
-					if !all {
-						teasers = teasers[(ci+si)%3 : (ci+si)%3+1]
-					}
+					teasers = teasers[(ci+si+wi+ni)%3 : (ci+si+wi+ni)%3+1]
 					for _, ts := range teasers {
 						out = append(out, pagerMarkup{Sep: s, Open: w[0], Close: w[1], Cur: c, Nav: nv, Teaser: ts})
 					}
